@@ -76,7 +76,7 @@ class Design:
         return c
 
 
-def render_stil(design, markers, pi_order, po_order, patterns, name_style='plain', loc=False):
+def render_stil(design, markers, pi_order, po_order, patterns, name_style='plain', loc=False, callnames=0):
     """markers: per chain a list of booleans of length len(chain)+1: marker before cell k (k=len: after the last cell)."""
     out = ['STIL 1.0 { Design 2005; }', 'Header {', '   Title "generated";', '   History { Ann {* nothing {nested} *} }', '}']
     out.append('Signals {')
@@ -118,10 +118,12 @@ def render_stil(design, markers, pi_order, po_order, patterns, name_style='plain
             for ci in range(len(design.chains)): out.append(f'      "so{ci}"={prev_unload[ci]};')
         for ci in range(len(design.chains)): out.append(f'      "si{ci}"={p["load"][ci]}; ' + ('}' if ci == len(design.chains) - 1 else ''))
         if loc or p.get('launch_pi') is not None:
-            out.append(f'   Call "allclock_launch" {{\n      "_pi"={p["launch_pi"]}; }}')
-            out.append(f'   Call "allclock_capture" {{\n      "_pi"={p["capture_pi"]}; "_po"={p["capture_po"]}; }}')
+            ln, cn = [('allclock_launch', 'allclock_capture'), ('multiclock_launch', 'allclock_launch_capture'), ('x_launch', 'y_launch_z_capture')][callnames % 3]
+            out.append(f'   Call "{ln}" {{\n      "_pi"={p["launch_pi"]}; }}')
+            out.append(f'   Call "{cn}" {{\n      "_pi"={p["capture_pi"]}; "_po"={p["capture_po"]}; }}')
         else:
-            out.append(f'   Call "multiclock_capture" {{\n      "_pi"={p["capture_pi"]}; "_po"={p["capture_po"]}; }}')
+            cn = ['multiclock_capture', 'allclock_capture', 'allclock_launch_capture', 'one_launch_two_capture'][callnames % 4]
+            out.append(f'   Call "{cn}" {{\n      "_pi"={p["capture_pi"]}; "_po"={p["capture_po"]}; }}')
         prev_unload = p['unload']
     out.append(f'   "end {len(patterns) - 1} unload": Call "load_unload" {{')
     for ci in range(len(design.chains)): out.append(f'      "so{ci}"={prev_unload[ci]};' + (' }' if ci == len(design.chains) - 1 else ''))
@@ -164,7 +166,7 @@ def stil_case(res, case):
     res.evals += 1
     c = d.build()
     markers, pi_order, po_order, patterns = case['markers'], case['pi_order'], case['po_order'], case['patterns']
-    text = render_stil(d, markers, pi_order, po_order, patterns, case['names'], loc=case.get('loc', False))
+    text = render_stil(d, markers, pi_order, po_order, patterns, case['names'], loc=case.get('loc', False), callnames=case.get('callnames', 0))
     key = f'C18/{common.h64(case["design"]):08x}/m{"".join("".join(str(int(x)) for x in m) + "_" for m in markers)}/{common.h64(text):016x}'
     case = dict(case, text=text)
     try:
@@ -277,8 +279,10 @@ def run_design(res, d, tier, seed):
     marker_sets = list(itertools.product(*[list(itertools.product((False, True), repeat=len(ch) + 1)) for ch in d.chains]))
     pi_orders = group_orders(d.pis, tier)
     po_orders = group_orders(d.pos, tier)
+    ncase = [0]
     def case(markers, pi_o, po_o, patterns, names='plain', loc=False):
-        return {'kind': 'stil', 'design': d.to_json(), 'markers': [list(m) for m in markers], 'pi_order': pi_o, 'po_order': po_o, 'patterns': patterns, 'names': names, 'loc': loc}
+        ncase[0] += 1
+        return {'callnames': ncase[0], 'kind': 'stil', 'design': d.to_json(), 'markers': [list(m) for m in markers], 'pi_order': pi_o, 'po_order': po_o, 'patterns': patterns, 'names': names, 'loc': loc}
     # every marker placement x every load string x every unload string (one pattern), default groups
     for markers in marker_sets:
         loads = list(itertools.product(*[[''.join(t) for t in itertools.product('01', repeat=len(ch))] for ch in d.chains]))
